@@ -1,8 +1,10 @@
 import XC.Model.C19
 namespace XC.C19
 
-/-- `key pw=<hex> salt=<hex> rep=<n> rounds=<int> keylen=<int> [expect=<hex>]` (salt = the hex pattern repeated `rep` times)
-    → `ok <hex>` | `err` | `panic` -/
+/-- `key pw=<hex> salt=<hex> rep=<n> rounds=<int> keylen=<int> [lay=<0|1|2>] [expect=<hex>]` (salt = the hex pattern repeated `rep` times)
+    → `ok <hex>` | `err` | `panic`, each followed by `mutated=none`: Key is a function of its arguments'
+    bytes; `lay` (how the harness places salt and password in one backing array) cannot matter and no
+    argument buffer may change -/
 def handle (line : String) : String :=
   let o := parseOp line
   if o.cmd != "key" then "bad-op" else
@@ -12,10 +14,10 @@ def handle (line : String) : String :=
     match key pw s rounds kl with
     | .ok k =>
       match o.get? "expect" with
-      | none => "ok " ++ toHex k
-      | some e => "ok " ++ toHex k ++ (if toHex k == e then " kat=ok" else " kat=MODEL-MISMATCH")
-    | .err => "err"
-    | .panic => "panic"
+      | none => "ok " ++ toHex k ++ " mutated=none"
+      | some e => "ok " ++ toHex k ++ " mutated=none" ++ (if toHex k == e then " kat=ok" else " kat=MODEL-MISMATCH")
+    | .err => "err mutated=none"
+    | .panic => "panic mutated=none"
   | _, _, _, _, _ => "bad-op"
 
 end XC.C19
